@@ -14,15 +14,15 @@ Lemma ADBSZ_pos : (1 <= ADBSZ)%nat.
 Proof. unfold ADBSZ; lia. Qed.
 Global Opaque BUFSZ COPYSZ ADBSZ.
 
-Lemma weight_cons s r t m :
-  weight (mkConn (s :: r) t m) = (length s + length (concat r) + S (length r))%nat.
+Lemma weight_cons s r t m rm wd :
+  weight (mkConn5 (s :: r) t m rm wd) = (length s + length (concat r) + S (length r))%nat.
 Proof. unfold weight; cbn [c_segs concat length]; rewrite app_length; lia. Qed.
 
 (* data leaves the connection: what was read plus what remains never exceeds what was there *)
 Lemma cread_pot c n d e c' :
   cread c n = (d, e, c') -> (length d + weight c' <= weight c)%nat.
 Proof.
-  unfold cread; destruct c as [segs t m]; cbn [c_segs c_term c_m].
+  unfold cread; destruct c as [segs t m rm wd]; cbn [c_segs c_term c_m c_room c_wdead].
   destruct segs as [|s r].
   - destruct t; intros H; inversion H; subst; cbn; lia.
   - intros H; inversion H; subst; clear H.
@@ -42,7 +42,7 @@ Proof. intros H; apply cread_pot in H; lia. Qed.
 Lemma cread_progress c n d e c' :
   (0 < n)%nat -> c_segs c <> [] -> cread c n = (d, e, c') -> (weight c' < weight c)%nat.
 Proof.
-  unfold cread; destruct c as [segs t m]; cbn [c_segs c_term c_m].
+  unfold cread; destruct c as [segs t m rm wd]; cbn [c_segs c_term c_m c_room c_wdead].
   destruct segs as [|s r]; [congruence|]; intros Hn _ H; inversion H; subst; clear H.
   rewrite weight_cons.
   destruct (skipn n s) as [|x rest] eqn:Hk.
@@ -104,31 +104,79 @@ Proof.
   unfold cread; destruct (c_segs c); [destruct (c_term c)|]; intros H; inversion H; subst; cbn; lia.
 Qed.
 
-Lemma cwrite_weight c k : weight (cwrite c k) = weight c.
-Proof. reflexivity. Qed.
-Lemma cwrite_term c k : c_term (cwrite c k) = c_term c.
-Proof. reflexivity. Qed.
+Lemma cwrite_e_same c k :
+  c_segs (fst (cwrite_e c k)) = c_segs c /\ c_term (fst (cwrite_e c k)) = c_term c /\
+  m_timeouts (c_m (fst (cwrite_e c k))) = m_timeouts (c_m c) /\ c_wdead (fst (cwrite_e c k)) = c_wdead c.
+Proof. unfold cwrite_e. destruct (c_room c) as [r|]; [destruct (k <=? r)%N|]; cbn; auto. Qed.
+
 Lemma cwrite_segs c k : c_segs (cwrite c k) = c_segs c.
-Proof. reflexivity. Qed.
+Proof. apply cwrite_e_same. Qed.
+Lemma cwrite_weight c k : weight (cwrite c k) = weight c.
+Proof. unfold weight; rewrite cwrite_segs; reflexivity. Qed.
+Lemma cwrite_term c k : c_term (cwrite c k) = c_term c.
+Proof. apply cwrite_e_same. Qed.
 Lemma cwrite_timeouts c k : m_timeouts (c_m (cwrite c k)) = m_timeouts (c_m c).
-Proof. reflexivity. Qed.
+Proof. apply cwrite_e_same. Qed.
+
+Lemma swrite_same c k :
+  c_segs (swrite c k) = c_segs c /\ c_term (swrite c k) = c_term c /\
+  m_timeouts (c_m (swrite c k)) = m_timeouts (c_m c).
+Proof.
+  unfold swrite. destruct (c_wdead c); [auto|].
+  pose proof (cwrite_e_same c k) as (A & B & C & _).
+  destruct (cwrite_e c k) as [c' ok]; cbn [fst] in *. destruct ok; cbn; auto.
+Qed.
+Lemma swrite_weight c k : weight (swrite c k) = weight c.
+Proof. unfold weight; destruct (swrite_same c k) as (-> & _); reflexivity. Qed.
+
+(* a Write through the wrapper always comes back: at the cost of at most one write deadline *)
+Lemma cwrite_e_deadline c k :
+  (m_wtimeouts (c_m (fst (cwrite_e c k))) <= m_wtimeouts (c_m c) + 1)%N /\
+  (snd (cwrite_e c k) = true -> m_wtimeouts (c_m (fst (cwrite_e c k))) = m_wtimeouts (c_m c)).
+Proof. unfold cwrite_e. destruct (c_room c) as [r|]; [destruct (k <=? r)%N|]; cbn; split; intros; try lia; congruence. Qed.
+
+(* a buffered writer waits out at most ONE write deadline in its whole life *)
+Lemma swrite_once c k :
+  (c_wdead c = true -> swrite c k = c) /\
+  (m_wtimeouts (c_m (swrite c k)) <= m_wtimeouts (c_m c) + 1)%N /\
+  (m_wtimeouts (c_m (swrite c k)) = m_wtimeouts (c_m c) + 1 -> c_wdead (swrite c k) = true)%N.
+Proof.
+  unfold swrite. destruct (c_wdead c) eqn:E; [repeat split; auto; lia|].
+  split; [congruence|].
+  pose proof (cwrite_e_deadline c k) as [A B]. pose proof (cwrite_e_same c k) as (_ & _ & _ & D).
+  destruct (cwrite_e c k) as [c' ok]; cbn [fst snd] in *. destruct ok; cbn [c_m c_wdead]; split; auto; try lia;
+    try (specialize (B eq_refl); lia).
+Qed.
 
 (* ------------------------------------------------------------------ *)
 (* io.Copy *)
+
+Lemma io_copy_step_conn (wr : bool) (d : bytes) (c1 : conn) :
+  let r := match d with
+           | [] => (c1, true)
+           | _ => if wr then cwrite_e c1 (nlen d) else (c1, true)
+           end in
+  weight (fst r) = weight c1 /\ m_timeouts (c_m (fst r)) = m_timeouts (c_m c1).
+Proof.
+  destruct d; [cbn; auto|]. destruct wr; [|cbn; auto]. cbv zeta.
+  pose proof (cwrite_e_same c1 (nlen (n :: d))) as (A & _ & C & _).
+  split; [unfold weight; rewrite A; reflexivity|exact C].
+Qed.
 
 Lemma io_copy_returns fuel wr c :
   (weight c < fuel)%nat -> fst (io_copy fuel wr c) = Returned.
 Proof.
   revert c; induction fuel as [|f IH]; intros c Hw; [lia|]; cbn [io_copy].
   destruct (cread c COPYSZ) as [[d e] c1] eqn:E.
-  pose proof (cread_term _ _ _ _ _ E) as Ht1.
+  pose proof (io_copy_step_conn wr d c1) as [W _]. cbv zeta in W.
+  destruct (match d with [] => (c1, true) | _ :: _ => if wr then cwrite_e c1 (nlen d) else (c1, true) end) as [c2 ok].
+  cbn [fst] in W. destruct ok; [|reflexivity].
   destruct (c_segs c) eqn:Es.
-  - destruct (cread_drained _ _ _ _ _ Es E) as (-> & _ & ->).
-    destruct (c_term c); reflexivity.
+  - destruct (cread_drained _ _ _ _ _ Es E) as (_ & _ & ->). destruct (c_term c); reflexivity.
   - assert (e = ENone) as -> by (eapply cread_pending; eauto; congruence).
     assert (weight c1 < weight c)%nat
       by (apply (cread_progress c COPYSZ d ENone c1); [pose proof COPYSZ_pos; lia|congruence|exact E]).
-    apply IH. destruct d; [|destruct wr]; rewrite ?cwrite_weight; lia.
+    apply IH. lia.
 Qed.
 
 Lemma io_copy_one_deadline fuel wr c :
@@ -137,10 +185,11 @@ Proof.
   revert c; induction fuel as [|f IH]; intros c; cbn [io_copy]; [cbn; lia|].
   destruct (cread c COPYSZ) as [[d e] c1] eqn:E.
   pose proof (cread_timeouts _ _ _ _ _ E) as Ht.
-  destruct e; cbn [snd];
-    try (destruct d; [|destruct wr]; rewrite ?cwrite_timeouts; lia).
-  specialize (IH (match d with [] => c1 | _ => if wr then cwrite c1 (nlen d) else c1 end)).
-  destruct d; [|destruct wr]; rewrite ?cwrite_timeouts in IH; lia.
+  pose proof (io_copy_step_conn wr d c1) as [_ T]. cbv zeta in T.
+  destruct (match d with [] => (c1, true) | _ :: _ => if wr then cwrite_e c1 (nlen d) else (c1, true) end) as [c2 ok].
+  cbn [fst] in T. destruct ok; [|cbn [snd]; destruct e; lia].
+  destruct e; cbn [snd]; try lia.
+  specialize (IH c2). lia.
 Qed.
 
 (* ------------------------------------------------------------------ *)
@@ -267,15 +316,19 @@ Proof.
 Qed.
 
 Lemma bwrite_pot b k : pot (bwrite b k) = pot b.
-Proof. reflexivity. Qed.
+Proof. unfold pot, bwrite; cbn [b_buf b_c]. rewrite cwrite_weight; reflexivity. Qed.
 Lemma bwrite_err b k : b_err (bwrite b k) = b_err b.
 Proof. reflexivity. Qed.
 Lemma bwrite_term b k : c_term (b_c (bwrite b k)) = c_term (b_c b).
+Proof. unfold bwrite; cbn [b_c]; apply cwrite_term. Qed.
+Lemma bswrite_pot b : pot (bswrite b) = pot b.
+Proof. unfold pot, bswrite; cbn [b_buf b_c]. rewrite swrite_weight; reflexivity. Qed.
+Lemma bswrite_err b : b_err (bswrite b) = b_err b.
 Proof. reflexivity. Qed.
 Lemma nwrites_pot k b : pot (nwrites k b) = pot b.
-Proof. revert b; induction k; intros b; cbn [nwrites]; [reflexivity|]. rewrite IHk; apply bwrite_pot. Qed.
+Proof. revert b; induction k; intros b; cbn [nwrites]; [reflexivity|]. rewrite IHk; apply bswrite_pot. Qed.
 Lemma nwrites_err k b : b_err (nwrites k b) = b_err b.
-Proof. revert b; induction k; intros b; cbn [nwrites]; [reflexivity|]. rewrite IHk; apply bwrite_err. Qed.
+Proof. revert b; induction k; intros b; cbn [nwrites]; [reflexivity|]. rewrite IHk; apply bswrite_err. Qed.
 
 Lemma bread_spec b n d e b' :
   b_err b <> EBufFull -> bread b n = (d, e, b') ->
@@ -584,9 +637,9 @@ Lemma handle_ftp_ends v6 dial fuel c :
   (weight c + 3 <= fuel)%nat -> ftp_end (h_out (handle_ftp v6 dial fuel c)).
 Proof.
   intros Hf; unfold handle_ftp, handle_ftp_st.
-  pose proof (ftp_loop_ends fuel v6 dial ftp_init (bwrite (new_reader c) 0)) as H.
-  destruct (ftp_loop fuel v6 dial ftp_init (bwrite (new_reader c) 0)) as [[o s] b]; cbn [fst h_out] in *.
-  apply H; [cbn; congruence|rewrite bwrite_pot, pot_new_reader; lia].
+  pose proof (ftp_loop_ends fuel v6 dial ftp_init (bswrite (new_reader c))) as H.
+  destruct (ftp_loop fuel v6 dial ftp_init (bswrite (new_reader c))) as [[o s] b]; cbn [fst h_out] in *.
+  apply H; [cbn; congruence|rewrite bswrite_pot, pot_new_reader; lia].
 Qed.
 
 Lemma smtp_loop_ends fuel st i b :
@@ -615,9 +668,9 @@ Lemma handle_smtp_ends fuel c :
   h_out (handle_smtp fuel c) = Returned \/ h_out (handle_smtp fuel c) = Unmodelled.
 Proof.
   intros Hf; unfold handle_smtp.
-  pose proof (smtp_loop_ends fuel SHello 0 (bwrite (new_reader c) 0)) as H.
-  destruct (smtp_loop fuel SHello 0 (bwrite (new_reader c) 0)) as [o b]; cbn [fst h_out] in *.
-  apply H; [cbn; congruence|rewrite bwrite_pot, pot_new_reader; lia].
+  pose proof (smtp_loop_ends fuel SHello 0 (bswrite (new_reader c))) as H.
+  destruct (smtp_loop fuel SHello 0 (bswrite (new_reader c))) as [o b]; cbn [fst h_out] in *.
+  apply H; [cbn; congruence|rewrite bswrite_pot, pot_new_reader; lia].
 Qed.
 
 (* ------------------------------------------------------------------ *)
@@ -818,8 +871,8 @@ Lemma handle_ftp_res v6 dial fuel c :
   (h_out h = Panicked -> h_res h = mkRes 1 1 1 /\ h_late h = mkRes 1 1 1).
 Proof.
   unfold handle_ftp, handle_ftp_st.
-  pose proof (ftp_loop_inv fuel v6 dial ftp_init (bwrite (new_reader c) 0) ftp_init_inv) as H.
-  destruct (ftp_loop fuel v6 dial ftp_init (bwrite (new_reader c) 0)) as [[o s] b].
+  pose proof (ftp_loop_inv fuel v6 dial ftp_init (bswrite (new_reader c)) ftp_init_inv) as H.
+  destruct (ftp_loop fuel v6 dial ftp_init (bswrite (new_reader c))) as [[o s] b].
   destruct H as (Hi & Hr & Hp). cbn [h_out h_res h_late]. unfold ftp_inv in Hi.
   split; intros Ho; subst o.
   - rewrite (Hr eq_refl) in Hi; cbn [shape] in Hi. injection Hi as A B C.
@@ -997,9 +1050,11 @@ Proof.
 Qed.
 
 Lemma bwrite_tmo b k : tmo (bwrite b k) = tmo b.
-Proof. reflexivity. Qed.
+Proof. unfold tmo, bwrite; cbn [b_c]; apply cwrite_timeouts. Qed.
+Lemma bswrite_tmo b : tmo (bswrite b) = tmo b.
+Proof. unfold tmo, bswrite; cbn [b_c]. apply swrite_same. Qed.
 Lemma nwrites_tmo k b : tmo (nwrites k b) = tmo b.
-Proof. revert b; induction k; intros b; cbn [nwrites]; [reflexivity|]. rewrite IHk; apply bwrite_tmo. Qed.
+Proof. revert b; induction k; intros b; cbn [nwrites]; [reflexivity|]. rewrite IHk; apply bswrite_tmo. Qed.
 
 Lemma dummy_loop_one_deadline fuel b :
   b_err b = ENone -> (tmo (snd (dummy_loop fuel b)) <= tmo b + 1)%N.
@@ -1035,8 +1090,9 @@ Lemma handle_ftp_one_deadline v6 dial fuel c :
   (m_timeouts (c_m (h_conn (handle_ftp v6 dial fuel c))) <= m_timeouts (c_m c) + 1)%N.
 Proof.
   unfold handle_ftp, handle_ftp_st.
-  pose proof (ftp_loop_one_deadline fuel v6 dial ftp_init (bwrite (new_reader c) 0) eq_refl) as H.
-  destruct (ftp_loop fuel v6 dial ftp_init (bwrite (new_reader c) 0)) as [[o s] b]; cbn [snd h_conn] in *. exact H.
+  pose proof (ftp_loop_one_deadline fuel v6 dial ftp_init (bswrite (new_reader c)) eq_refl) as H.
+  destruct (ftp_loop fuel v6 dial ftp_init (bswrite (new_reader c))) as [[o s] b]; cbn [snd h_conn] in *.
+  rewrite bswrite_tmo in H. exact H.
 Qed.
 
 (* ------------------------------------------------------------------ *)
@@ -1047,4 +1103,40 @@ Proof.
   revert sched q p; induction reqs as [|r IH]; intros sched q p; cbn [serve_queue]; [congruence|].
   destruct (_ <? VNC_QCAP)%nat; [apply IH|].
   destruct p; [destruct (pa_die _)|]; try apply IH; congruence.
+Qed.
+
+(* ------------------------------------------------------------------ *)
+(* ssh-simulator: the string-list loop over a request payload ends for every payload, every
+   truncation point and every stray tail included; it takes at most length/4 + 1 rounds *)
+Lemma ssh_strings_ends fuel data acc :
+  (length data < fuel)%nat -> exists l, ssh_strings fuel data acc = Some l.
+Proof.
+  revert data acc; induction fuel as [|f IH]; intros data acc Hf; [lia|]. cbn [ssh_strings].
+  destruct data as [|x data']; [eexists; reflexivity|].
+  destruct (length (x :: data') <? 4)%nat eqn:E4; [eexists; reflexivity|].
+  destruct (Z.of_nat (length (skipn 4 (x :: data'))) <? _); [eexists; reflexivity|].
+  apply IH. apply Nat.ltb_ge in E4. rewrite !skipn_length. lia.
+Qed.
+
+Lemma ssh_decode_total data : exists l, ssh_decode data = Some l.
+Proof. apply ssh_strings_ends; lia. Qed.
+
+(* nothing is made up: the decoded strings, with their 4-byte prefixes, fit in the payload *)
+Lemma ssh_strings_sound fuel data acc l :
+  ssh_strings fuel data acc = Some l ->
+  (length (concat l) + 4 * length l <= length (concat acc) + 4 * length acc + length data)%nat.
+Proof.
+  revert data acc; induction fuel as [|f IH]; intros data acc; cbn [ssh_strings]; [congruence|].
+  assert (forall a : list bytes, length (concat (rev a)) = length (concat a)) as Hrev.
+  { induction a as [|y a IHa]; [reflexivity|]. cbn [rev]. rewrite concat_app, app_length, IHa. cbn [concat].
+    rewrite !app_length. cbn [length]. lia. }
+  destruct data as [|x data'].
+  - intros H; inversion H; subst. rewrite Hrev, rev_length. cbn [length]. lia.
+  - destruct (length (x :: data') <? 4)%nat eqn:E4.
+    + intros H; inversion H; subst. rewrite Hrev, rev_length. lia.
+    + destruct (Z.of_nat (length (skipn 4 (x :: data'))) <? _) eqn:En.
+      * intros H; inversion H; subst. rewrite Hrev, rev_length. lia.
+      * intros H; apply IH in H. apply Nat.ltb_ge in E4. apply Z.ltb_ge in En.
+        cbn [concat length] in H. rewrite app_length, firstn_length, !skipn_length in H.
+        rewrite skipn_length in En. lia.
 Qed.
